@@ -1,7 +1,10 @@
-// C19 UB probe: is `static_cast<int64_t>(double)` in ::update (src/parameter.cpp) executed outside its defined domain?
+// C19 UB probe: is `static_cast<int64_t>(double)` executed outside its defined domain?
 // Built together with /repo/src/parameter.cpp under -fsanitize=float-cast-overflow (recovering), so that UBSan prints
 // "runtime error: ... is outside the range of representable values of type 'long'" right after the CALL line that
 // triggers it. Prints, per call, what the library did (THROW / accepted + stored value).
+// Since fix 0c6dfeb every ASSIGN of a non-convertible double must THROW without any report from src/parameter.cpp
+// (tools/checks/c19.py gates on both); the CONSTRUCT calls document what is still unguarded (make_scalar_ in
+// include/nano/parameter.h casts programmer-given doubles) and are informational.
 #include "common.h"
 #include <limits>
 #include <nano/parameter.h>
@@ -26,7 +29,7 @@ void probe(const char* what, parameter_t p, const tassign& assign)
     }
     std::ostringstream o;
     o << p.value();
-    std::printf("RESULT %s -> %s stored=%s\n", what, threw ? "THROW" : "ACCEPTED", o.str().c_str());
+    std::printf("ASSIGN %s -> %s stored=%s\n", what, threw ? "THROW" : "ACCEPTED", o.str().c_str());
     std::fflush(stdout);
 }
 } // namespace
@@ -44,14 +47,16 @@ int main()
     probe("make_integer(10<=300<=1000) = NaN", lib, [&](parameter_t& p) { p = nan; });
     probe("make_integer(10<=300<=1000) = +inf", lib, [&](parameter_t& p) { p = inf; });
     probe("make_integer(10<=300<=1000) = 1e19", lib, [&](parameter_t& p) { p = 1e19; });
-    probe("make_integer(10<=300<=1000) = \"nan\" (string: stoll, no cast)", lib, [&](parameter_t& p) { p = string_t("nan"); });
-    probe("make_integer(10<=300<=1000) = 500.9 (defined: truncation)", lib, [&](parameter_t& p) { p = 500.9; });
+    probe("make_integer(10<=300<=1000) = -inf", lib, [&](parameter_t& p) { p = -inf; });
 
-    // a domain that contains INT64_MIN: the x86-64 result of the undefined conversion (0x8000000000000000) is *accepted*
+    // a domain that contains INT64_MIN: before the fix the x86-64 result of the undefined conversion (0x8000000000000000)
+    // was *accepted* here
     const auto wide = parameter_t::make_integer("wide", imin, LE, 0, LE, 0);
     probe("make_integer(INT64_MIN<=0<=0) = +inf", wide, [&](parameter_t& p) { p = inf; });
     probe("make_integer(INT64_MIN<=0<=0) = NaN", wide, [&](parameter_t& p) { p = nan; });
     probe("make_integer(INT64_MIN<=0<=0) = 1e19", wide, [&](parameter_t& p) { p = 1e19; });
+    probe("make_integer(INT64_MIN<=0<=0) = +2^63", wide, [&](parameter_t& p) { p = 9223372036854775808.0; });
+    probe("make_integer(INT64_MIN<=0<=0) = -2^63-2048", wide, [&](parameter_t& p) { p = -9223372036854777856.0; });
 
     const auto pair = parameter_t::make_integer_pair("pair", imin, LE, 0, LE, 1, LE, imax);
     probe("make_integer_pair(INT64_MIN<=0<=1<=INT64_MAX) = (+2^63, 11.0)", pair,
@@ -65,11 +70,11 @@ int main()
         const auto c = parameter_t::make_integer("c", 0, LE, nan, LE, 10);
         std::ostringstream o;
         o << c.value();
-        std::printf("RESULT construction -> ACCEPTED stored=%s\n", o.str().c_str());
+        std::printf("CONSTRUCT -> ACCEPTED stored=%s\n", o.str().c_str());
     }
     catch (std::exception&)
     {
-        std::printf("RESULT construction -> THROW\n");
+        std::printf("CONSTRUCT -> THROW\n");
     }
     std::printf("DONE\n");
     return 0;
